@@ -426,9 +426,7 @@ func (x *runner) runHistory(h *History, count bool) (fails []failure) {
 		}
 		if op.Op == "close" {
 			db = nil
-			if retention {
-				scanDir()
-			}
+			scanDir()
 			rf := dirFiles(dir)
 			mf := x.o.MustAsk("files")
 			if rf != mf {
@@ -438,9 +436,7 @@ func (x *runner) runHistory(h *History, count bool) (fails []failure) {
 			}
 		} else if db != nil {
 			db.VerifWaitDataFiles()
-			if retention {
-				scanDir()
-			}
+			scanDir()
 			a, b, c, q, cc := db.VerifPositions()
 			rp := fmt.Sprintf("pos %d %d %d %d %d", a, b, c, q, cc)
 			mp := x.o.MustAsk("pos")
